@@ -59,6 +59,10 @@ int main() {
   printf("\"PADDING\": %d, \"THREAD_NUM\": %d, \"THREAD_MAX\": %d,\n", PADDING, THREAD_NUM, (int)multicry_master::THREAD_MAX);
   printf("\"BUF_SZ\": %u, \"BUF_SUM\": %u, \"HBUF_SZ\": %u,\n", iobuffer::BUF_SZ, iobuffer::sum, filebuffer64::HBUF_SZ);
   printf("\"ipad\": %d, \"opad\": %d,\n", (int)hmac::ipad, (int)hmac::opad);
+  { u8_t k0[16] = {0}, v0[16] = {0}; AesFactory fac(k0); fac.loadiv(v0);
+    printf("\"cipher_known_enc\": ["); for (int t = 0; t < 256; t++) { Aesmode *m = fac.createCryMaster(true, (u8_t)t); printf("%s%d", t ? "," : "", m ? 1 : 0); delete m; } printf("],\n");
+    printf("\"cipher_known_dec\": ["); for (int t = 0; t < 256; t++) { Aesmode *m = fac.createCryMaster(false, (u8_t)t); printf("%s%d", t ? "," : "", m ? 1 : 0); delete m; } printf("],\n"); }
+  { HashFactory hf; printf("\"hash_known\": ["); for (int t = 0; t < 256; t++) { Hashmaster *h = hf.getHasher(hf.getType((u8_t)t)); printf("%s%d", t ? "," : "", h ? 1 : 0); delete h; } printf("],\n"); }
   printf("\"EMPTY\": %d, \"UPDATING\": %d, \"READY\": %d, \"INV\": %d, \"FULL\": %d, \"FINAL\": %d, \"NODATA\": %d\n",
          (int)EMPTY, (int)UPDATING, (int)READY, (int)INV, (int)FULL, (int)FINAL, (int)NODATA);
   printf("}\n");
@@ -66,13 +70,63 @@ int main() {
 }
 '''
 
+DUMP2 = r'''
+#include <stdio.h>
+#include <string>
+typedef unsigned char u8_t;
+bool check_ctype(int);
+bool check_htype(int);
+bool is_base64(unsigned char c);
+void strlog(std::string, std::string, char) {}
+int main() {
+  printf("{\n\"check_ctype\": [");
+  for (int i = -8; i <= 300; i++) printf("%s%d", i == -8 ? "" : ",", check_ctype(i) ? 1 : 0);
+  printf("],\n\"check_htype\": [");
+  for (int i = -8; i <= 300; i++) printf("%s%d", i == -8 ? "" : ",", check_htype(i) ? 1 : 0);
+  printf("],\n\"is_base64\": [");
+  for (int c = 0; c < 256; c++) printf("%s%d", c ? "," : "", is_base64((unsigned char)c) ? 1 : 0);
+  printf("]\n}\n");
+  return 0;
+}
+'''
+
+def dump_decisions():
+    """check_ctype / check_htype on -8..300 and is_base64 on all bytes, evaluated by the real functions (C locale)"""
+    with tempfile.TemporaryDirectory(prefix="wv_gen2_") as td:
+        src = os.path.join(td, "dump2.cpp"); exe = os.path.join(td, "dump2")
+        open(src, "w").write(DUMP2)
+        cfgdir = os.path.join(td, "cfg"); os.makedirs(cfgdir)
+        cfg_in = os.path.join(REPO, "config.h.in")
+        if os.path.exists(cfg_in):
+            txt = open(cfg_in).read(); txt = re.sub(r"@[A-Za-z_]+@", "0", txt); txt = re.sub(r"#cmakedefine\s+(\w+).*", r"#define \1", txt)
+            open(os.path.join(cfgdir, "config.h"), "w").write(txt)
+        inc = [f"-I{REPO}", f"-I{REPO}/valget", f"-I{REPO}/valget/base64", f"-I{REPO}/kernel", f"-I{cfgdir}"]
+        r = subprocess.run(["g++", "-std=gnu++17", "-O0", "-w", "-o", exe, src, f"{REPO}/valget/information.cpp", f"{REPO}/valget/base64/base64.cpp"] + inc, capture_output=True, text=True)
+        if r.returncode != 0:
+            sys.stderr.write("gen_tables: decision dump does not compile against /repo:\n" + r.stderr[-2000:]); return None
+        r = subprocess.run([exe], capture_output=True, text=True, env=dict(os.environ, LC_ALL="C"))
+        if r.returncode != 0: sys.stderr.write("gen_tables: decision dump failed\n"); return None
+        return json.loads(r.stdout)
+
+def parse_case_labels():
+    """the `case` labels of parseOpts in valget/getopts.cpp, as option values (characters or numbers)"""
+    txt = open(f"{REPO}/valget/getopts.cpp").read()
+    m = re.search(r"bool\s+parseOpts\s*\([^)]*\)\s*\{(.*?)\n\}", txt, re.S)
+    if not m: sys.stderr.write("gen_tables: parseOpts not found\n"); return None
+    labels = []
+    for c, n in re.findall(r"\bcase\s+(?:'(.)'|(\d+))\s*:", m.group(1)):
+        labels.append(ord(c) if c else int(n))
+    if not labels: sys.stderr.write("gen_tables: no case labels in parseOpts\n"); return None
+    return labels
+
 def dump_repo():
     with tempfile.TemporaryDirectory(prefix="wv_gen_") as td:
         src = os.path.join(td, "dump.cpp"); exe = os.path.join(td, "dump")
         open(src, "w").write(DUMP)
         inc = [f"-I{REPO}", f"-I{REPO}/kernel", f"-I{REPO}/kernel/hash", f"-I{REPO}/kernel/multi_aes", f"-I{REPO}/kernel/multi_aes/aes"]
         r = subprocess.run(["g++", "-std=gnu++17", "-O0", "-w", "-o", exe, src,
-                            f"{REPO}/kernel/hash/sha256.cpp", f"{REPO}/kernel/hash/sha1.cpp", f"{REPO}/kernel/hash/md5.cpp", f"{REPO}/kernel/hash/hashmaster.cpp"] + inc, capture_output=True, text=True)
+                            f"{REPO}/kernel/hash/sha256.cpp", f"{REPO}/kernel/hash/sha1.cpp", f"{REPO}/kernel/hash/md5.cpp", f"{REPO}/kernel/hash/hashmaster.cpp",
+                            f"{REPO}/kernel/multi_aes/aes/aes.cpp", f"{REPO}/kernel/multi_aes/aes/aesmode.cpp"] + inc, capture_output=True, text=True)
         if r.returncode != 0:
             sys.stderr.write("gen_tables: dump program does not compile against /repo:\n" + r.stderr[-3000:])
             return None
@@ -153,7 +207,9 @@ def main():
     d = dump_repo()
     md5 = parse_md5()
     go = parse_getopts()
-    if d is None or md5 is None or go is None:
+    dec = dump_decisions()
+    labels = parse_case_labels()
+    if d is None or md5 is None or go is None or dec is None or labels is None:
         return 3
     t = "/- GENERATED by tools/gen_tables.py from /repo on every check run. Do not edit. -/\nnamespace Wencry.Gen\n\n"
     t += fun_table("sboxT", d["s_box"], 8, 8, "s_box of kernel/multi_aes/aes/tab.h")
@@ -186,6 +242,16 @@ def main():
     c += "/-- longOpts of valget/getopts.cpp: (name, has_arg as 0/1/2, val); every `flag` field is NULL -/\n"
     c += "def longOpts : List (List (BitVec 8) × Nat × Nat) := [\n" + ",\n".join(f"  ({bl(n)}, {a}, {v})" for n, a, v in go[0]) + "]\n"
     c += f"/-- shortOpts of valget/getopts.cpp -/\ndef shortOpts : List (BitVec 8) := {bl(go[1])}\n"
+    c += "/-- check_ctype(i) and check_htype(i) of valget/information.cpp for i = -8 .. 300, as the compiled functions answer -/\n"
+    c += "def checkCtypeTable : List Bool := [" + ", ".join("true" if v else "false" for v in dec["check_ctype"]) + "]\n"
+    c += "def checkHtypeTable : List Bool := [" + ", ".join("true" if v else "false" for v in dec["check_htype"]) + "]\n"
+    c += "/-- is_base64(c) of valget/base64/base64.cpp for every byte c (C locale) -/\n"
+    c += "def isBase64Table : List Bool := [" + ", ".join("true" if v else "false" for v in dec["is_base64"]) + "]\n"
+    c += "/-- which cipher-mode / hash-mode numbers 0..255 the factories know (non-NULL result), as the compiled code answers -/\n"
+    for k in ("cipher_known_enc", "cipher_known_dec", "hash_known"):
+        c += f"def {k.replace('_k', 'K').replace('_e', 'E').replace('_d', 'D')} : List Bool := [" + ", ".join("true" if v else "false" for v in d[k]) + "]\n"
+    c += "/-- the case labels of parseOpts (valget/getopts.cpp), in source order -/\n"
+    c += "def parseOptsCases : List Nat := [" + ", ".join(str(v) for v in labels) + "]\n"
     c += "\nend Wencry.Gen\n"
     ch1 = write_if_changed(os.path.join(OUTDIR, "Tables.lean"), t)
     ch2 = write_if_changed(os.path.join(OUTDIR, "Consts.lean"), c)
